@@ -36,7 +36,8 @@ theorem afterKernel_vals {ncols : Nat} {im : List Nat} {s : DS} {content : Bytes
 
 /-- under the invariant, the iteration calls the kernel on the window held for line `q`, entered at the end of line `e-1` -/
 theorem driverStep_call {file : Bytes} {w ncols : Nat} {im : List Nat} {hrow : List Cell} {rows : List (List Cell)}
-    {s : DS} {q e maxrow : Nat} (hinv : DI file w ncols im hrow rows s q e maxrow) (hlt : bnd hrow rows q < file.length)
+    {F : Nat → List Bytes → Imp} {s : DS} {q e maxrow : Nat} (hinv : DI F file w ncols im hrow rows s q e maxrow)
+    (hlt : bnd hrow rows q < file.length)
     (hw : 0 < w) :
     driverStep file w ncols im s =
       match fastCsvReader (readWindow file (bnd hrow rows q) w) (bnd hrow rows e - bnd hrow rows q) s.inds s.vals s.offs
